@@ -56,7 +56,7 @@ theorem complete_mono_thread {s : State} (hg : Good crc pl blob s) (tid k i : Na
         rw [List.getElem?_set_ne this]; exact hc
       · exact hc
 
-theorem complete_mono {s : State} (hg : Good crc pl blob s) (a : Action) (hnr : a ≠ .recreate) (i : Nat)
+theorem complete_mono {s : State} (hg : Good crc pl blob s) (a : Action) (hnr : a.destructive = false) (i : Nat)
     (hc : s.pieces[i]? = some PStatus.complete) :
     (step crc s a).pieces[i]? = some PStatus.complete := by
   cases a with
@@ -80,6 +80,7 @@ theorem complete_mono {s : State} (hg : Good crc pl blob s) (a : Action) (hnr : 
         simp only
         split <;> exact this
     · exact hc
-  | recreate => exact absurd rfl hnr
+  | recreate => simp [Action.destructive] at hnr
+  | tornReopen n => simp [Action.destructive] at hnr
 
 end KrakenModel.Proof.C03
